@@ -3,9 +3,9 @@
 # A behaviour-preserving change written by a sub-agent: confirm (applies, 477 tests pass, its exercise passes both ways) and run the
 # property's quick check (plus any others named) against it: they must stay silent (exit 0, no VIOLATION).
 pid=$1; i=$2; shift 2
-src=/tmp/ben-$pid/benign
+src=${BEN_SRC:-/tmp/ben-$pid}/benign; oi=${BEN_INDEX:-$i}
 wt=/tmp/bc-$pid-b$i-$$
-out=/verif/benign/$pid-b$i
+out=/verif/benign/$pid-b$oi
 [ -f "$src/b$i.diff" ] || { echo "no $src/b$i.diff"; exit 2; }
 git -C /repo worktree add -q --detach "$wt" HEAD || exit 2
 cleanup() { git -C /repo worktree remove --force "$wt"; }
@@ -22,13 +22,13 @@ for p in $pid "$@"; do
   res="$res $p:rc=$rc"
   if [ $rc != 0 ]; then bad=1; echo "$chk" | grep "violation:\|signature=\|HARNESS" | head -6 | cut -c1-300; fi
 done
-echo "[$pid-b$i] exercise clean rc=$clean_rc with change rc=$mut_rc; tests: $tests; checks:$res"
+echo "[$pid-b$oi] exercise clean rc=$clean_rc with change rc=$mut_rc; tests: $tests; checks:$res"
 if echo "$tests" | grep -q "477 passed"; then
   mkdir -p "$out"
   git -C "$wt" diff > "$out/patch.diff"
   cp "$src/b$i.md" "$out/README.md" 2>/dev/null
   cp "$src/b${i}_exercise.py" "$out/exercise.py" 2>/dev/null
-  /venv/bin/python - "$pid" "$i" "$tests" "$res" "$bad" "$out" <<'PY'
+  /venv/bin/python - "$pid" "$oi" "$tests" "$res" "$bad" "$out" <<'PY'
 import json, sys
 pid, i, tests, res, bad, out = sys.argv[1:7]
 json.dump({"property": pid, "id": "%s-b%s" % (pid, i), "kind": "behaviour-preserving change (the property still holds)",
